@@ -226,7 +226,8 @@ class RdmsOps:
                 if i != k:
                     tmp = self.pool.add(it, 'rdms', {**src.sem, 'ru': [src.sem['ru'][i]], 'cu': list(src.sem['cu'])}, 'iterate', [src.sid])
                     self.pool.check_rdms(tmp, 'iterate')
-                    tmp.alive = False
+                    # (one sibling stays in use next to the chosen item: items of one iteration are independent objects)
+                    tmp.alive = i == (k + 1) % ln and tmp.sem is not None
         sem = None if src.sem is None else {**src.sem, 'ru': [src.sem['ru'][k]], 'cu': list(src.sem['cu'])}
         self._finish('iterate', items[k], sem, [src.sid])
 
